@@ -228,8 +228,12 @@ def feasible(events: list[Event]) -> bool:
     """Prune paths assuming both truth values of one (syntactically equal) atom
     with no intervening assignment to any name the atom mentions."""
     seen: dict[str, tuple[bool, set[str]]] = {}
+    consts: dict[str, object] = {}  # name -> constant it was just assigned (None / bool / str / int literals only)
     for e in events:
         if e[0] == "assume":
+            known = _const_truth(e[1], consts)
+            if known is not None and known != e[2]:
+                return False
             txt = ast.unparse(e[1])
             if txt in seen and seen[txt][0] != e[2]:
                 return False
@@ -237,6 +241,13 @@ def feasible(events: list[Event]) -> bool:
             seen[txt] = (e[2], names)
         elif e[0] in ("stmt", "iter"):
             killed = _assigned_names(e[1])
+            for k in killed:
+                consts.pop(k, None)
+            if e[0] == "stmt" and isinstance(e[1], (ast.Assign, ast.AnnAssign)) and isinstance(getattr(e[1], "value", None), ast.Constant):
+                tg = e[1].targets if isinstance(e[1], ast.Assign) else [e[1].target]
+                for t in tg:
+                    if isinstance(t, ast.Name):
+                        consts[t.id] = e[1].value.value
             if killed:
                 for t in [t for t, (_, ns) in seen.items() if ns & killed]:
                     del seen[t]
@@ -246,6 +257,26 @@ def feasible(events: list[Event]) -> bool:
                 for t in [t for t in seen if ("." in t or "[" in t or "(" in t)]:
                     del seen[t]
     return True
+
+
+_NO = object()
+
+
+def _const_truth(test: ast.expr, consts: dict) -> Optional[bool]:
+    """Truth of `x`, `not x`, `x is None`, `x is not None`, `x == c`, `x != c` when x was just bound to a literal."""
+    if isinstance(test, ast.UnaryOp) and isinstance(test.op, ast.Not):
+        r = _const_truth(test.operand, consts)
+        return None if r is None else (not r)
+    if isinstance(test, ast.Name) and test.id in consts:
+        return bool(consts[test.id])
+    if isinstance(test, ast.Compare) and len(test.ops) == 1 and isinstance(test.left, ast.Name) and test.left.id in consts and isinstance(test.comparators[0], ast.Constant):
+        a, b = consts[test.left.id], test.comparators[0].value
+        op = test.ops[0]
+        if isinstance(op, (ast.Is, ast.Eq)):
+            return (a is b) if (a is None or b is None or isinstance(a, bool) or isinstance(b, bool)) else (a == b)
+        if isinstance(op, (ast.IsNot, ast.NotEq)):
+            return not ((a is b) if (a is None or b is None or isinstance(a, bool) or isinstance(b, bool)) else (a == b))
+    return None
 
 
 def _assigned_names(node: ast.AST) -> set[str]:
